@@ -12,7 +12,12 @@ RULE = ("same engine and history format as C01 (`item ctor n values ; op ; op ..
         "(`lb_pushed_pending_tag`, `lbr_pushed_pending_tag` in generator_histogram). Predicates: thresholds chosen next to the actual "
         "range aggregates (`lt` on minima, `gt` on maxima, `ge` on sums, `len`, `spread` = max-min on Combinator<MinAdd,MaxAdd>), "
         "order-sensitive `npre`/`nsuf` (range is not a prefix / suffix of a word built from the current contents with one element "
-        "changed) on affHash and strCat, always-true, always-false. The harness wraps the Rust closure and logs every argument. "
+        "changed) on affHash and strCat, always-true, always-false. The typed stream of C01 (2b: Min/Max/Sum/MinAdd/MaxAdd/SumAdd/mm/smm at i8, u8, "
+        "i32, u32, u64, isize, usize with elements at the types' extreme values) runs with this op mix too, with thresholds at T::MIN, T::MIN+1, "
+        "T::MAX-1, T::MAX, iN::MAX(+1) seen as uN and next to the actual aggregates (`typed_search_threshold_at_type_extreme`): the shadow "
+        "vector's empty-range identity is the standard library's <uN>::MAX / <iN>::MIN, not the crate's MinMax constant, so a search seeded "
+        "with a wrong Default shows probes that are no range aggregate; `const <type>` lines compare the trait constants of all twelve "
+        "integer types with the model's bounds. The harness wraps the Rust closure and logs every argument. "
         "Compared: the returned Option<usize>; the observable value of every probe, in call order, against the specification's "
         "aggregate of the range [l,k] (resp. [k,r]) the theorem probes_are_ranges assigns to it; `{:?}` of every probe (raw); and "
         "`P` = every probe equals the aggregate of some range [l,k] of the harness's plain shadow vector, which is maintained and "
@@ -23,7 +28,7 @@ RULE = ("same engine and history format as C01 (`item ctor n values ; op ; op ..
 ASSUMPTIONS = [
     "the Lean model of rlib_segtree is hand-written (recursion tree instead of the implicit array); it is tied to the code by running both on the same histories",
     "predicates depend only on the observable value of the aggregate and are monotone along the ranges they are asked about (checked per search by both sides)",
-    "values and modifiers are kept far below 2^63 (overflow is outside the domain; Min/Max defaults i64::MAX/MIN are identities on i64)",
+    "overflow is outside the domain (i64: magnitudes far below 2^63; narrow / unsigned element types: decided per history by the model's overflow guard, `S any`); the defaults of Min/MinAdd (<T as MinMax>::MAX) and Max/MaxAdd (MIN) are identities on every value of the element type (minmax_default_identity, for every IntTy) - that the crate's trait constants are the type's bounds is compared on every run (`const <type>`, all twelve integer types)",
 ]
 TRUSTED_EXTRA = ["harness items affHash/strCat are defined twice (Rust, Lean) and compared by the differential run"]
 MANIFEST = {
@@ -32,7 +37,8 @@ MANIFEST = {
              "index whose in-order range aggregate satisfies the predicate (none iff there is none), for every tree size, start "
              "position, lazy state and every predicate that is monotone on the actual ranges; every value shown to the predicate — by any predicate, monotone "
              "or not — is the aggregate of a range starting at l (ending at r); the searches preserve contents and well-formedness, so they can be "
-             "interleaved with any history (C01). Defaults of all built-in items are proved to be identities on their domain. The "
+             "interleaved with any history (C01). Defaults of all built-in items are proved to be identities on their domain - for Min/Max/MinAdd/MaxAdd at every integer element type, on all values "
+             "between the type's real bounds (and not beyond: min_default_needs_type_max). The "
              "hand-written model is tied to rlib_segtree by a differential correspondence run on every check."),
     "note": ("Trusted: Lean kernel, axioms propext/Classical.choice/Quot.sound, the hand-written model, harness and driver plumbing. "
              "lower_bound with l >= n has no assert in the code and walks off the array: outside the property's domain, not modelled."),
